@@ -1,6 +1,7 @@
 package main
 
 import (
+	"sync"
 	"fmt"
 	"go/token"
 	"go/types"
@@ -57,6 +58,7 @@ type Exec struct {
 	topStar bool
 	ghostSorts map[string]string
 	entryAlloc Term
+	pcMu sync.Mutex
 	noQuick bool
 	assumeSeen map[string]bool
 	assumeGuard []string
